@@ -25,7 +25,7 @@ def sha(b):
 
 
 class Ctx:
-    def __init__(self, bita, base, rnd, cfgno):
+    def __init__(self, bita, base, rnd, cfgno, bulk=False):
         self.bita = bita
         self.base = base
         self.rnd = rnd
@@ -38,11 +38,19 @@ class Ctx:
             (["--hash-chunking", "BuzHash", "--avg-chunk-size", "512", "--min-chunk-size", "64", "--max-chunk-size", "2048", "--rolling-window-size", "16"], 2048),
             (["--hash-chunking", "RollSum", "--avg-chunk-size", "4096", "--min-chunk-size", "700", "--max-chunk-size", "16384", "--rolling-window-size", "64"], 16384),
         ]
+        if bulk:
+            # bulk layouts: chunks of several KiB and a pool of some hundred *distinct* ones, so that a file made of each chunk once is
+            # several MB (beyond the 1 MiB / 4 MiB / 8 MiB buffers on the way) while the trace stays at some hundred operations
+            cfgs = [
+                (["--hash-chunking", "RollSum", "--avg-chunk-size", "8192", "--min-chunk-size", "2048", "--max-chunk-size", "32768", "--rolling-window-size", "64"], 32768),
+                (["--hash-chunking", "BuzHash", "--avg-chunk-size", "16384", "--min-chunk-size", "4096", "--max-chunk-size", "65536", "--rolling-window-size", "20"], 65536),
+                (["--hash-chunking", "RollSum", "--avg-chunk-size", "4096", "--min-chunk-size", "700", "--max-chunk-size", "16384", "--rolling-window-size", "64"], 16384),
+            ]
         self.chunk_args, self.maxc = cfgs[cfgno % len(cfgs)]
         self.hl = [64, 8, 16][cfgno % 3]
         self.comp = [["--compression", "brotli", "--compression-level", "2"], ["--compression", "none"], ["--compression", "zstd", "--compression-level", "3"]][cfgno % 3]
         # pool of natural chunks that ended by a hash trigger
-        stream = rnd.randbytes(200000)
+        stream = rnd.randbytes([3000000, 5000000, 1600000][cfgno % 3] if bulk else 200000)
         d, _ = self.compress(stream)
         chunks = pydecode.source_chunks(d)
         self.pool = [stream[o:o + s] for (h, o, s) in chunks[:-1] if s < self.maxc]
@@ -164,7 +172,7 @@ def main():
     base = os.path.join(a.dir, "l2_s%d" % a.shard)
     shutil.rmtree(base, ignore_errors=True)
     os.makedirs(base)
-    ctx = Ctx(a.bita, base, rnd, a.seed + a.shard)
+    ctx = Ctx(a.bita, base, rnd, a.seed + a.shard, bulk=a.mode == "bulk")
     srv, port = start_server()
     w = open(a.out, "w")
     nrun = 0
@@ -184,7 +192,9 @@ def main():
             continue
         if sc.get("bulk"):
             npool = len(ctx.pool)
-            picks = [rnd.randrange(npool) for _ in range(rnd.randint(250, 500))]
+            # the source: most of the pool once each in random order, a tenth of the positions repeated
+            picks = rnd.sample(range(npool), rnd.randint(npool * 2 // 3, npool))
+            picks = [x for i in picks for x in ([i, rnd.choice(picks)] if rnd.random() < 0.1 else [i])]
             source = b"".join(ctx.pool[i] for i in picks)
             variant = rnd.randrange(3)
             pp = list(picks)
@@ -200,6 +210,11 @@ def main():
             late = list(set(picks))
             rnd.shuffle(late)
             seeds = [filler + b"".join(ctx.pool[i] for i in late[: len(late) // 2]), b"".join(ctx.pool[i] for i in late[len(late) // 2: len(late) // 2 + 40])]
+            if rnd.random() < 0.6:
+                # a multi-MB seed in which every needed chunk occurs exactly once, in another order
+                dense = list(set(picks))
+                rnd.shuffle(dense)
+                seeds = [b"".join(ctx.pool[i] for i in dense[: rnd.randint(len(dense) * 3 // 4, len(dense))])] + (seeds if rnd.random() < 0.3 else [])
             sc = dict(sc, inplace=rnd.random() < 0.6)
             if not sc["inplace"]:
                 prior = b""
@@ -233,6 +248,8 @@ def main():
             if i == stdin_i:
                 args += ["--seed", "-"]       # this seed arrives on stdin
                 stdin_data = sb
+                if os.environ.get("L2_KEEP"):
+                    open(os.path.join(dd, "seed%d.stdin" % i), "wb").write(sb)
             else:
                 sp = os.path.join(dd, "seed%d.bin" % i)
                 open(sp, "wb").write(sb)
@@ -375,11 +392,13 @@ def main():
                 evs = [ev0] + io_events(calls2, out, ap_) + [{"ev": "http", "first": x[0], "last": x[1], "cut": x[2]} for x in http2] + [after_ev(code2, msg2), {"ev": "done"}]
                 for e in evs:
                     w.write(json.dumps(e) + "\n")
-        shutil.rmtree(dd, ignore_errors=True)
+        if not os.environ.get("L2_KEEP"):
+            shutil.rmtree(dd, ignore_errors=True)
         RangeHandler.data.pop("/a%d_%d.cba" % (a.shard, n), None)
     w.close()
     srv.shutdown()
-    shutil.rmtree(base, ignore_errors=True)
+    if not os.environ.get("L2_KEEP"):
+        shutil.rmtree(base, ignore_errors=True)
     print(json.dumps({"runs": nrun, "discarded": discarded}))
 
 
